@@ -280,4 +280,129 @@ theorem blockWritten_struct (codec : Codec) (st st' : State) (idx : Nat) (h : bl
     exact getElem?_modify_ne _ _ _ _ (Ne.symm hj)
   · cases h
 
+/-! ### blocks that are not open are never touched; what closing does -/
+
+/-- every block of `st` that is not open is the same block of `st'` -/
+@[reducible] def Keep (st st' : State) : Prop :=
+  ∀ (i : Nat) (b : FragBlock), st.blocks[i]? = some b → b.place ≠ Place.opened → st'.blocks[i]? = some b
+
+theorem Keep.refl (st : State) : Keep st st := fun _ _ h _ => h
+
+theorem Keep.trans {a b c : State} (h1 : Keep a b) (h2 : Keep b c) : Keep a c :=
+  fun i x hx hp => h2 i x (h1 i x hx hp) hp
+
+theorem Keep_of_eq {a b : State} (h : b.blocks = a.blocks) : Keep a b := by
+  intro i x hx _; rw [h]; exact hx
+
+theorem openIndex_congr {a b : State} (h : b.blocks = a.blocks) : openIndex b = openIndex a := by
+  unfold openIndex; rw [h]
+
+theorem closeOpen_keep (st : State) : Keep st (closeOpen st) ∧
+    (∀ i, openIndex st = some i → ∃ b, st.blocks[i]? = some b ∧
+      (closeOpen st).blocks[i]? = some { b with place := Place.inFlight }) := by
+  unfold closeOpen
+  cases ho : openIndex st with
+  | none => exact ⟨Keep.refl st, fun i h => by cases h⟩
+  | some i =>
+    simp only []
+    obtain ⟨b, hb, hp, _⟩ := openIndex_some ho
+    refine ⟨?_, ?_⟩
+    · intro j x hx hpx
+      by_cases hij : i = j
+      · subst hij; rw [hb] at hx; cases hx; exact absurd hp hpx
+      · rw [getElem?_modify_ne _ _ _ _ hij]; exact hx
+    · intro j hj
+      cases hj
+      exact ⟨b, hb, getElem?_modify_self _ _ _ _ hb⟩
+
+theorem place_keep (st : State) (d : Bytes) (flags : Nat) : Keep st (place st d flags).2.2 := by
+  unfold place
+  cases ho : openIndex st with
+  | none =>
+    simp only []
+    intro j x hx _
+    have hj : j < st.blocks.length := (List.getElem?_eq_some_iff.1 hx).1
+    rw [List.getElem?_append_left hj]; exact hx
+  | some i =>
+    simp only []
+    obtain ⟨b, hb, hp, _⟩ := openIndex_some ho
+    intro j x hx hpx
+    by_cases hij : i = j
+    · subst hij; rw [hb] at hx; cases hx; exact absurd hp hpx
+    · rw [getElem?_modify_ne _ _ _ _ hij]; exact hx
+
+/-- appending to the open block keeps it the open block -/
+theorem place_open (st : State) (d : Bytes) (flags : Nat) (i : Nat) (ho : openIndex st = some i) :
+    openIndex (place st d flags).2.2 = some i := by
+  unfold place
+  rw [ho]
+  simp only []
+  obtain ⟨b, hb, hp, hlen⟩ := openIndex_some ho
+  unfold openIndex
+  rw [List.getLast?_eq_getElem?]
+  simp only [List.length_modify]
+  have : st.blocks.length - 1 = i := by omega
+  rw [this, getElem?_modify_self _ _ _ _ hb]
+  simp [hp]
+
+/-- `process_completed_fragment`: blocks that are not open are not touched; if the open block is not the open block
+afterwards it has been handed to the pool (in flight), with the bytes and flags it had -/
+theorem processFragment_keep (codec : Codec) (h : Bytes → UInt32) (B : Nat) (st : State) (d : Bytes)
+    (flags : Nat) (r : Res) (st' : State) (hinv : Inv codec st)
+    (hrun : processFragment codec h true B st d flags = .ok (r, st')) :
+    Keep st st' ∧
+    (∀ i, openIndex st = some i → openIndex st' ≠ some i →
+      ∃ b, st.blocks[i]? = some b ∧ st'.blocks[i]? = some { b with place := Place.inFlight }) := by
+  unfold processFragment at hrun
+  split at hrun
+  · cases hrun; exact ⟨Keep.refl st, fun i h1 h2 => absurd h1 h2⟩
+  · split at hrun
+    · cases hrun
+    · rename_i c st1 hfs
+      cases hrun
+      have hb := findShared_blocks _ _ _ _ _ _ _ hfs
+      exact ⟨Keep_of_eq hb, fun i h1 h2 => absurd (by rw [openIndex_congr hb]; exact h1) h2⟩
+    · rename_i st1 hfs
+      have hb1 := findShared_blocks _ _ _ _ _ _ _ hfs
+      have hinv1 := findShared_inv _ _ _ _ _ _ _ hinv hfs
+      unfold storeFragment at hrun
+      simp only [] at hrun
+      split at hrun
+      · cases hrun
+      · rename_i st4 hins
+        cases hrun
+        have hb4 := insert_blocks _ _ _ _ _ _ _ _ _ hins
+        have hov : Keep st1 (overflow B st1 d) := by
+          unfold overflow
+          cases ho : openIndex st1 with
+          | none => exact Keep.refl st1
+          | some i =>
+            simp only []
+            obtain ⟨b, hb, _, _⟩ := openIndex_some ho
+            rw [hb]; simp only []
+            split
+            · exact (closeOpen_keep st1).1
+            · exact Keep.refl st1
+        refine ⟨Keep.trans (Keep_of_eq hb1) (Keep.trans hov (Keep.trans (place_keep _ d flags) (Keep_of_eq hb4))), ?_⟩
+        intro i ho hne
+        have ho1 : openIndex st1 = some i := by rw [openIndex_congr hb1]; exact ho
+        obtain ⟨b, hb, hp, hlen⟩ := openIndex_some ho1
+        -- which branch did `overflow` take?
+        by_cases hfull : b.data.length + d.length > B
+        · have hovc : overflow B st1 d = closeOpen st1 := by
+            unfold overflow; rw [ho1]; simp only []; rw [hb]; simp only []; rw [if_pos hfull]
+          obtain ⟨b', hb', hcb⟩ := (closeOpen_keep st1).2 i ho1
+          rw [hb] at hb'; cases hb'
+          refine ⟨b, by rw [← hb1]; exact hb, ?_⟩
+          rw [hb4]
+          have hk := place_keep (overflow B st1 d) d flags i { b with place := Place.inFlight } (by rw [hovc]; exact hcb)
+            (by intro hc; cases hc)
+          exact hk
+        · exfalso
+          have hovc : overflow B st1 d = st1 := by
+            unfold overflow; rw [ho1]; simp only []; rw [hb]; simp only []; rw [if_neg hfull]
+          apply hne
+          rw [openIndex_congr hb4, hovc]
+          exact place_open st1 d flags i ho1
+
 end Sqfs.FragDedup
